@@ -67,6 +67,7 @@ def run(ctx):
     ctx.rule("R15.10", "CPPPreprocessor::_infile is null once the last input file has been popped (get() tests for it); every other dereference of _infile is behind a test that it is not null")
     ctx.rule("R15.11", "every loop of the preprocessor that consumes tokens can only go round while a test implying `not at end of input` holds (_state != S_eof, !token.is_eof(), token._token == <a real token>)")
     ctx.rule("R15.12", "the parser entry points (parse_cpp, parse_const_expr, parse_type) install current_lexer before yyparse and restore the previous one last: nothing that reports through current_lexer (yyerror/yywarning, which dereference it) is reachable after the restoring assignment")
+    ctx.rule("R15.13", "grammar statics that name the class / enum under construction are stacked: every `current_X = new ...` in the parser's actions is preceded by a push of the previous value and the construct's end pops it back; none is reset to nullptr (a nested definition would orphan the enclosing one)")
     ctx.rule("R15.7", "macro expansion excludes the macro being expanded: nested_ignores.insert(manifest) before the recursive expansion; the pushed expansion suppresses its own macro")
 
     # ------------------------------------------------------------ R15.1
@@ -192,6 +193,7 @@ def run(ctx):
     ctx.info("R15.2: %d position arguments that are loop indices / find() results were enumerated, not judged" % n_not)
 
     scanner_loops(ctx)
+    construction_stacks(ctx)
     lexer_restore_order(ctx)
     token_loops(ctx)
     infile_derefs(ctx)
@@ -865,4 +867,45 @@ def lexer_restore_order(ctx):
                 cfg.locate(parse[0])[0] in cfg.reachable(cfg.locate(i)[0]) for i in installs)
             ctx.ob("R15.12", "%s|installed-before-parse" % nm, ok, f.loc(installs[0]), "current_lexer is installed before yyparse()")
     ctx.floor("R15.12", "parser entry points", n, 3)
+
+
+
+
+def construction_stacks(ctx):
+    """R15.13: definitions nest (a class inside a class, an enum inside sizeof() inside an enumerator's initialiser).
+    The actions keep `the entity being defined` in file-scope statics; after the inner definition the outer one must be
+    current again, otherwise its next member is added to a null pointer."""
+    db = ctx.db
+    n = 0
+    fns = [f for f in db.functions if f.file.endswith("cppBison.cxx")]
+    if not fns:
+        ctx.broken("generated parser not found")
+    for gname in ("current_enum", "current_struct"):
+        news, nulls, pops, pushes = [], [], [], []
+        for f in fns:
+            for x in f.walk():
+                t = assigned_target(x)
+                if t and (strip_casts(peel(t[0])) or {}).get("n") == gname and (strip_casts(peel(t[0])) or {}).get("dk") == "global":
+                    r = strip_casts(peel(t[1]))
+                    if r is None:
+                        continue
+                    if r.get("k") == "new" or (r.get("k") == "ref" and r.get("dk") in ("param", "local")):
+                        news.append((f, x))
+                    elif r.get("k") == "nullp":
+                        nulls.append((f, x))
+                    elif r.get("k") == "call" and callee_short(r) in ("back", "top"):
+                        pops.append((f, x))
+                if x.get("k") == "call" and callee_short(x) in ("push_back", "push") and any((strip_casts(peel(a)) or {}).get("n") == gname for a in x.get("a", [])):
+                    pushes.append((f, x))
+        if not news:
+            ctx.broken("no assignment `%s = <new object>` found in the parser" % gname)
+        n += len(news)
+        for f, x in nulls:
+            ctx.ob("R15.13", "%s|reset-to-null" % gname, False, f.loc(x), "`%s` drops the enclosing definition: after a nested one its next member is added through a null pointer" % show(x))
+        for f, x in news:
+            lx = f.cfg.locate(x)
+            ok = any(g is f and f.cfg.locate(p) is not None and lx is not None and f.cfg.locate(p)[0] == lx[0] and f.cfg.locate(p)[1] < lx[1] for g, p in pushes)
+            ctx.ob("R15.13", "%s|pushed-before-replaced" % gname, ok, f.loc(x), "`%s` is %spreceded by a push of the previous %s" % (show(x)[:50], "" if ok else "NOT ", gname))
+        ctx.ob("R15.13", "%s|popped-at-end" % gname, bool(pops), fns[0].loc(), "%d place(s) restore %s from the stack" % (len(pops), gname))
+    ctx.floor("R15.13", "sites starting a class/enum definition", n, 3)
 
